@@ -336,7 +336,7 @@ theorem patchFvHeader_length (buf : Bytes) (length : Nat) (guid : Option Guid) (
   have l1 : (splice buf 32 (leN 8 length)).length = buf.length := splice_length _ _ _ (by simp; omega)
   -- the buffer after the optional GUID patch
   have key : ∀ b2 : Bytes, b2.length = buf.length →
-      (if headerLen > (splice (splice b2 56 (leN 4 count)) 50 [0, 0]).length then (Except.error Err.panic : Except Err Bytes)
+      (if headerLen > (splice (splice b2 56 (leN 4 count)) 50 [0, 0]).length then (Except.error Err.err : Except Err Bytes)
        else if headerLen % 2 ≠ 0 then .error .err
        else .ok (splice (splice (splice b2 56 (leN 4 count)) 50 [0, 0]) 50
           (leN 2 ((0 - sum16 ((splice (splice b2 56 (leN 4 count)) 50 [0, 0]).take headerLen)).toNat)))) = .ok out →
